@@ -110,6 +110,8 @@ class FitYamlWriter(YamlWriterMixin, FitDReprBase):
         else:
             _yaml_doc["cost_function"] = _process_function_code_for_dump(inspect.getsource(fit._cost_function.func))
 
+        if fit.dynamic_error_algorithm != "nonlinear":  # only written if not the default
+            _yaml_doc["dynamic_error_algorithm"] = fit.dynamic_error_algorithm
         _yaml_doc["minimizer"] = fit._minimizer
         _yaml_doc["minimizer_kwargs"] = fit._minimizer_kwargs
 
@@ -231,6 +233,10 @@ class FitYamlReader(YamlReaderMixin, FitDReprBase):
 
         if _read_parametric_model is not None:
             _fit_object._param_model = _read_parametric_model
+
+        _dynamic_error_algorithm = yaml_doc.pop("dynamic_error_algorithm", None)
+        if _dynamic_error_algorithm is not None:
+            _fit_object.dynamic_error_algorithm = _dynamic_error_algorithm
 
         _constraint_yaml_list = yaml_doc.pop("parameter_constraints", None)
         if isinstance(_constraint_yaml_list, dict):
